@@ -8,7 +8,7 @@ GEN_FILES = ["GenTape"]
 RULE = ("tapes emitted by an independent writer (this file, written from the format text: it shares no code with the tool or the model): "
         "leader runs of 3..64 bytes 01, gaps of 0..40 bytes over {00,01,3C,5A,FF,random} that do not contain 01 01 01 3C 5A, 0..6 files, "
         "0..5 data blocks per file with payloads of 0..254 bytes (non-maximal blocks included, 254 = length byte 0), adversarial payloads, "
-        "kind 0..2 and other values, mode 0/FFFF/random, trailing garbage, total length from unpadded to > 64 KiB; names 1..8 + 0..3 printable ASCII, space padded. "
+        "kind 0..2 and other values, mode 0/FFFF/random, trailing garbage, total length from unpadded to > 64 KiB; names 1..8 + 0..3 printable ASCII, space padded, possibly the same NAME.EXT several times on one tape (extraction keeps the last). "
         "signature = (n files, block-size classes, gap classes, run classes, flags); non-trivial = at least one file with data and a gap or a run != 16")
 ASSUMPTIONS = ["name fields are 7-bit ASCII without '/', NUL or leading blank (other bytes are C18's business)"]
 
@@ -52,6 +52,11 @@ def gen_case(rng):
         for _ in range(nb):
             size = rng.choice([0, 1, 2, 100, 253, 254, 254, rng.randint(0, 254)])
             chunks.append(gen_content(rng, size=size))
+        if files and rng.random() < 0.15:
+            # the same NAME.EXT again further down the tape (a program saved twice): extraction keeps the last one
+            name, ext = rng.choice(files)["name"], rng.choice(files)["ext"] if rng.random() < 0.3 else None
+            src = rng.choice(files)
+            name, ext = src["name"], src["ext"]
         files.append({"name": name, "ext": ext, "kind": kind, "mode": mode, "chunks": chunks})
     return {"files": files, "wseed": rng.randint(0, 1 << 30), "tail": rng.choice([0, 0, 1, 7, 100, 21504, 70000]), "verbose": rng.random() < 0.5,
             "archive": rng.choice(["t.k7", "o+/t.k7"]), "tailfill": rng.choice([0, 0, 0xFF, 1])}
@@ -78,7 +83,13 @@ def write_tape(case):
 
 def gen_cases(rng, tier):
     n = scale(tier, 250, 5000)
-    return [gen_case(rng) for _ in range(n)], {"random": n}
+    cases = [gen_case(rng) for _ in range(n)]
+    twice = {"files": [{"name": "SCORES", "ext": "DAT", "kind": 1, "mode": 0, "chunks": [{"pat": "41", "len": 254}, {"pat": "42", "len": 46}]},
+                       {"name": "MENU", "ext": "BAS", "kind": 0, "mode": 0, "chunks": [{"pat": "43", "len": 10}]},
+                       {"name": "SCORES", "ext": "DAT", "kind": 1, "mode": 0, "chunks": [{"pat": "44", "len": 120}]}],
+             "wseed": 5, "tail": 100, "verbose": True, "archive": "t.k7", "tailfill": 0}
+    cases.append(twice)
+    return cases, {"random": n, "same name twice": 1}
 
 
 def expected(case):
